@@ -109,6 +109,17 @@ impl C05 {
     }
 }
 
+/// `statement-lengths`: 1..=2600 contiguous, then windows of +-3 around 4096, 8192, ..., 131072
+const STATEMENT_LENGTHS: u64 = 2600 + 6 * 7;
+fn statement_length(n: u64) -> usize {
+    if n < 2600 {
+        1 + n as usize
+    } else {
+        let k = (n - 2600) / 7;
+        let d = (n - 2600) % 7;
+        (4096usize << k) + d as usize - 3
+    }
+}
 impl Prop for C05 {
     fn id(&self) -> &'static str {
         "C05"
@@ -128,12 +139,58 @@ impl Prop for C05 {
         vec![
             GenSpec::random("reader-image", tier.pick(50_000, 2_000_000)),
             GenSpec::enumerated("repo-files", 1),
+            // one statement made exactly L bytes long, for every L in a contiguous range and around the powers of two up to 128 KiB:
+            // whatever fixed-size line or block buffer a writer may use, some L fills it exactly, and L+1 overflows it by one
+            GenSpec::enumerated("statement-lengths", STATEMENT_LENGTHS),
             // the real `lefrw` binary, built from /repo by ./check for the thorough tier (LVH_BINS); spawned per case
             GenSpec::random("lefrw-binary", tier.pick(0, 1_000)),
         ]
     }
     fn run_case(&self, cx: &mut Cx) {
         match cx.gen.as_str() {
+            "statement-lengths" => {
+                let l = statement_length(cx.n);
+                cx.nontrivial(0x57A7_0000_0000 | l as u64);
+                // four statements that put user text of any length on one line: an extension block of one word, an extension block of
+                // many words, a string-valued property, a macro name
+                let word: String = (0..l).map(|i| (b'a' + (i % 26) as u8) as char).collect();
+                let words: String = {
+                    let mut t = String::new();
+                    let mut i = 0usize;
+                    while t.len() + 1 < l {
+                        let w = 1 + (i * 7 + l) % 9;
+                        let w = w.min(l - t.len() - 1).max(1);
+                        for k in 0..w {
+                            t.push((b'a' + ((i + k) % 26) as u8) as char);
+                        }
+                        if t.len() + 1 < l {
+                            t.push(' ');
+                        }
+                        i += 1;
+                    }
+                    t
+                };
+                let texts = [
+                    format!("VERSION 5.8 ;\nBEGINEXT \"tag\" {} ENDEXT\nEND LIBRARY\n", word),
+                    format!("VERSION 5.8 ;\nBEGINEXT \"tag\" {} ENDEXT\nMACRO m\n SIZE 1 BY 1 ;\nEND m\nEND LIBRARY\n", words),
+                    format!("VERSION 5.8 ;\nPROPERTYDEFINITIONS\n MACRO note STRING ;\nEND PROPERTYDEFINITIONS\nMACRO m\n PROPERTY note \"{}\" ;\n SIZE 1 BY 1 ;\nEND m\nEND LIBRARY\n", word),
+                    format!("VERSION 5.8 ;\nMACRO {}\n SIZE 1 BY 1 ;\nEND {}\nEND LIBRARY\n", word, word),
+                ];
+                for (k, text) in texts.iter().enumerate() {
+                    if l > 20_000 && k >= 2 {
+                        continue;
+                    }
+                    cx.eval();
+                    match open_text(cx, text) {
+                        Ok(Ok(lib)) => {
+                            self.check(cx, &lib, (cx.n + k as u64) % 3 == 0, text);
+                            cx.count("statement_length_sources_read");
+                        }
+                        _ => cx.count("source_rejected_by_reader_(C04)"),
+                    }
+                }
+                cx.sample(|| json!({"statement_length": l}));
+            }
             "reader-image" => {
                 // one case in 300 is a big library (tens to hundreds of KB when written) full of non-ASCII string literals
                 let cfg = if cx.n % 300 == 7 {
